@@ -680,7 +680,10 @@ class Exec:
         h = st.heap
         a = Z.addr(cont)
         if self.spec:
-            # specifications are total: dispatch on the container's kind symbolically
+            # specifications are total: dispatch on the container's kind symbolically (text first: substring test)
+            is_txt = z3.simplify(Z.is_s(cont))
+            if z3.is_true(is_txt):
+                return st, z3.Contains(Z.sv(cont), Z.sv(x))
             j = Z.fresh_int('j')
             arr, n = h.elems(a), h.len_of(a)
             e = lambda y: z3.If(z3.And(Z.is_num(x), Z.is_num(y)), Z.num(x) == Z.num(y), x == y)
@@ -692,9 +695,11 @@ class Exec:
                 return st, h.has_key(a, self.nk(x))
             if st.implies(is_seq):
                 return st, in_seq
+            if not z3.is_false(is_txt) and st.implies(Z.is_s(cont)):
+                return st, z3.Contains(Z.sv(cont), Z.sv(x))
             if st.implies(z3.Not(is_seq)):
-                return st, h.has_key(a, self.nk(x))
-            return st, z3.If(is_seq, in_seq, h.has_key(a, self.nk(x)))
+                return st, z3.If(Z.is_s(cont), z3.Contains(Z.sv(cont), Z.sv(x)), h.has_key(a, self.nk(x)))
+            return st, z3.If(is_seq, in_seq, z3.If(Z.is_s(cont), z3.Contains(Z.sv(cont), Z.sv(x)), h.has_key(a, self.nk(x))))
         if self.known(st, Z.is_s(cont)):
             st2 = self.guard(st, Z.is_s(x), 'TypeError', 'in <string> requires string')
             if st2 is None:
@@ -728,7 +733,12 @@ class Exec:
             # (never a made-up TypeError: a modelled failure Python does not have would be a false alarm)
             spec_a, spec_b = z3.simplify(Z.is_special(a)), z3.simplify(Z.is_special(b))
             if not (z3.is_false(spec_a) and z3.is_false(spec_b)):
-                may = st.feasible(z3.And(z3.Or(spec_a, spec_b), z3.Or(Z.is_num(a), Z.is_special(a)), z3.Or(Z.is_num(b), Z.is_special(b))))
+                q_special = z3.And(z3.Or(spec_a, spec_b), z3.Or(Z.is_num(a), Z.is_special(a)), z3.Or(Z.is_num(b), Z.is_special(b)))
+                may = st.feasible(q_special)
+                if may:
+                    # "unknown" within the short budget must not decide this (the special-value path is mostly unsupported):
+                    # ask once more with a long budget before concluding that inf/nan can reach the operator
+                    may = st.feasible(q_special, timeout_ms=10000)
                 if may:
                     return self.binop_special(st, op, a, b, node)
         bothnum = z3.And(Z.is_num(a), Z.is_num(b))
@@ -913,7 +923,8 @@ class Exec:
         a = Z.addr(base)
         if self.known(st, self.is_kind(st, base, Z.K_DICT)) or (self.spec and not z3.is_false(z3.simplify(Z.is_s(idx)))
                                                                  and z3.is_true(z3.simplify(Z.is_s(idx)))) \
-                or (self.spec and not z3.is_false(z3.simplify(self.is_kind(st, base, Z.K_DICT))) and st.implies(self.is_kind(st, base, Z.K_DICT))):
+                or (self.spec and not z3.is_true(z3.simplify(Z.is_i(idx))) and not z3.is_false(z3.simplify(self.is_kind(st, base, Z.K_DICT)))
+                    and st.implies(self.is_kind(st, base, Z.K_DICT))):      # (an index that is syntactically an int is a sequence index: no solver call)
             k = self.nk(idx if self.spec else self.narrow(st, idx))
             if not self.spec and z3.simplify(a).sexpr() in self.ddicts:
                 # defaultdict(int): a missing key reads as 0 and is inserted
